@@ -107,6 +107,34 @@ def o_plumbing(ctx):
     ctx.claim('fresh-filenames-list', o1.filenames == ['a.pdb'] and o2.filenames == ['b.pdb'] and o1.filenames is not o2.filenames)
 
 
+def mk_option_equivalence(name):
+    """--protonate-all changes no pKa; feeding the program's own hydrogens back
+    with --keep-protons reproduces the results; both under a symbolic grid
+    translation of the structure"""
+    def body(ctx):
+        from . import micro as M
+        from .c04 import with_hydrogens_text
+        k = ctx.int('shift_thousandths', 0, 2509)
+        t = k / 1000.0 if ctx.native else k / 1000
+
+        def tr(a):
+            a.y = a.y + t
+        default = M.run(M.text(name), transform=tr)
+        pall = M.run(M.text(name), args=['--protonate-all'], transform=tr)
+        M.compare_heavy(ctx, 'protonate-all', default, pall)
+        M.compare_results(ctx, 'protonate-all', default, pall)
+        # the program's own hydrogens (written with 3 decimals in the unshifted frame) fed back:
+        # identical in the same frame; in a shifted frame the freshly built hydrogens may round
+        # the other way at a near-tie, so only "within the effect of rounding" (0.01) is claimed there
+        keep = M.run(with_hydrogens_text(name), args=['--keep-protons'], transform=tr)
+        M.compare_heavy(ctx, 'keep-protons-own-hydrogens', default, keep)
+        M.compare_results(ctx, 'keep-protons-own-hydrogens(shifted frame)', default, keep, tol=0.01)
+        d0 = M.run(M.text(name))
+        k0 = M.run(with_hydrogens_text(name), args=['--keep-protons'])
+        M.compare_results(ctx, 'keep-protons-own-hydrogens(same frame)', d0, k0)
+    return body
+
+
 def obligations(tier):
     I = 'propka/input.py:'
     K = 2 if tier == 'quick' else 3
@@ -123,6 +151,14 @@ def obligations(tier):
                           bounds='one ATOM line; every character of columns 7-11 (decimal / upper / lower hybrid-36 serials), 12, 21, 28-30, 55-66 and 67-80 symbolic',
                           claim_doc='name, coordinates, residue number/name, chain, type, insertion code, element, residue_label are concrete and equal to the reference',
                           max_paths=20000))
+    for name in (['tri_HIS', 'tri_ARG', 'tri_ASN', 'pair_GLU_ARG_TYR'] if tier == 'quick' else
+                 ['tri_HIS', 'tri_ARG', 'tri_ASN', 'tri_GLN', 'tri_TRP', 'tri_ASP', 'tri_LYS', 'tri_TYR', 'tri_SER', 'tri_PRO', 'pep8', 'pair_GLU_ARG_TYR', 'pair_ASP_ARG', 'pair_LYS_ASP', 'cterm_PHE']):
+        obs.append(Obligation('O3-protonate-all-and-keep-protons[%s]' % name, mk_option_equivalence(name),
+                              code=['propka/hydrogens.py:setup_bonding_and_protonation', 'propka/protonate.py:Protonate.protonate', 'propka/protonate.py:Protonate.protonate_atom',
+                                    'propka/input.py:get_atom_lines_from_pdb (keep_protons)', 'propka/run.py:single (whole pipeline)'],
+                              bounds='amino-acid micro-structure %s under a symbolic grid translation t in [0,2.509] along y' % name,
+                              claim_doc='every pKa and determinant identical between default and --protonate-all (any shift) and --keep-protons on the program\'s own hydrogens (same frame; within 0.01 in a shifted frame)',
+                              max_paths=5000, wall_s=170 if tier == 'quick' else 1200))
     obs.append(Obligation('O4-option-plumbing', o_plumbing, code=['propka/lib.py:build_parser', 'propka/lib.py:loadOptions', I + 'read_pdb'],
                           bounds='5 command lines', kind='table-check'))
     return obs
@@ -131,6 +167,6 @@ def obligations(tier):
 MANIFEST_ENTRY = {
     'level_note': ('O1: relational check on the real record reader (file vs. file with one ignorable record inserted at any position); '
                    'O2: the real Atom constructor on a line whose unused columns are symbolic characters; O4: parser plumbing. '
-                   'The protonate-all / keep-protons equivalences need the hydrogen builder on whole residues and are decided on the '
-                   'micro-structures (thorough, O3) under the bounds stated there; hetero groups under --protonate-all are outside the claim.'),
+                   'O3: default vs --protonate-all vs --keep-protons on the program\'s own hydrogens, whole pipeline on amino-acid micro-structures under a symbolic '
+                   'grid translation; hetero groups under --protonate-all are outside the claim.'),
 }
